@@ -110,8 +110,8 @@ func lusFamily(c *inst, raw json.RawMessage, full bool, sum *core.Summary) {
 	for _, lda := range ldas(n, false) {
 		for _, nrhs := range []int{c.R, 1} {
 			ldb := maxi(1, nrhs) + lda - maxi(1, n)
-			for _, tr := range []blas.Transpose{blas.NoTrans, blas.Trans} {
-				k.where = desc("Dgetrs", "trans", tr == blas.Trans, "n", n, "nrhs", nrhs, "lda", lda, "ldb", ldb, "A*2^", sc)
+			for _, tr := range []blas.Transpose{blas.NoTrans, blas.Trans, blas.ConjTrans} {
+				k.where = desc("Dgetrs", "trans", tr != blas.NoTrans, "n", n, "nrhs", nrhs, "lda", lda, "ldb", ldb, "A*2^", sc)
 				a := build(c.LU, c.Den, n, n, lda, 1)
 				for i := 0; i < n; i++ {
 					for j := i; j < n; j++ {
@@ -119,7 +119,7 @@ func lusFamily(c *inst, raw json.RawMessage, full bool, sum *core.Summary) {
 					}
 				}
 				rhs := c.B
-				if tr == blas.Trans {
+				if tr != blas.NoTrans {
 					rhs = c.BT
 				}
 				b := buildExp(rhs, c.Den, n, nrhs, ldb, 1, sc)
